@@ -405,3 +405,8 @@ def run(rep, program: Program, tier: str) -> None:
     from . import c17
 
     rep.isolate(c17.rule_r2, rep, program, prop=PROP, rule="R7")
+    # sample_momentum reads state-cached quantities (the Riemannian metric, the constraint Jacobian / Gram matrix): they
+    # must be this system's own, so the cache key has to identify the system object (shared with C09-R6)
+    from . import c09
+
+    rep.isolate(c09.rule_r6, rep, program, prop=PROP, rule="R8")
